@@ -94,6 +94,7 @@ def rule_send_metric(fm, rep, rid='R2'):
     if b is None:
         return
     rep.analysed(b)
+    b = inl(cad, b)
     T = Terms(b)
     emits = [bi for bi, t in b.calls() if callee_is(t, SINK_TRAIT + '::emit') and not b.blocks[bi]['cleanup']]
     cnt = count_events(b, lambda x: x in emits)
@@ -215,12 +216,20 @@ def rule_quiet_send(fm, rep, rid='R4'):
         return
     rep.analysed(b)
     rep.analysed(cb)
+    cb0 = cb
+    cb = inl(cad, cb)
     Tc = Terms(cb)
     hc = [bi for bi, t in cb.calls() if callee_is(t, 'core::ops::function::Fn>::call') and not cb.blocks[bi]['cleanup']]
-    okc = len(hc) == 1 and count_events(cb, lambda x: x in hc) == {1}
+    cnt_h = count_events(cb, lambda x: x in hc)
+    okc = len(hc) == 1 and cnt_h == {1}
+    if len(hc) == 1 and cnt_h == {0, 1}:
+        # an optional handler (`None` = discard): the paths without a call are exactly those where the stored handler is None
+        gs = guards_of(Tc, hc[0]) or []
+        okc = any(norm(dt)[0] == 'discr' and ('variant', 'Some') in labels and on_self_path(strip_views(norm(dt)[1]), client_field(cad, 'errors'))
+                  for dt, labels, _ in gs)
     if okc:
         ct = norm(Tc.call_term(hc[0]))
-        okc = on_self_path(ct[2][0], client_field(cad, 'errors')) and ct[2][1] == ('tuple', (('param', 2),))
+        okc = on_self_path(strip_views(ct[2][0]), client_field(cad, 'errors')) and ct[2][1] == ('tuple', (('param', 2),))
     rep.ob(rid, 'consume_error/calls-handler-once', okc, cb.where(), 'consume_error(e) = (self.<handler>)(e), once' if okc else 'consume_error does not invoke the configured handler exactly once with its argument')
     # send with private helpers inlined, try_send and consume_error kept as events
     ib = inl(cad, b, never=lambda x: x.path in (fm.try_send.path, cb.path))
@@ -510,13 +519,13 @@ def rule_tag_plumbing(fm, rep, rid='R2'):
         if len(rts) == 1 and list(rts)[0][0] == 'adt':
             fs = dict(list(rts)[0][3])
             badf = []
-            for role in ('prefix', 'sink', 'errors', 'tags', 'container_id'):
+            for role in ('sink', 'errors', 'tags', 'container_id'):      # the prefix has its own rule (R6, C01)
                 cf, bf = client_field_path(cad, role), client_field_path(cad, role, SCB)
                 if cf is None or bf is None or deep_peel(get_path(list(rts)[0], cf)) != mk_path(('param', 1), bf):
                     badf.append('.'.join(cf) if cf else role)
             ok = not badf
             msg = 'fields not moved unchanged from the builder: %s' % [(n, fmt(get_path(list(rts)[0], tuple(n.split('.'))))[:80]) for n in badf]
-        rep.ob(rid, 'from_builder-moves-config-unchanged', ok, b.where(), 'prefix, sink, errors, tags, container_id are moved as configured' if ok else msg)
+        rep.ob(rid, 'from_builder-moves-config-unchanged', ok, b.where(), 'sink, errors, tags, container_id are moved as configured' if ok else msg)
     nb = one(rep, 'R5', 'StatsdClientBuilder::new', [names(cad).scb_new] if names(cad).scb_new is not None else [])
     if nb is not None:
         rts = ret_terms(Terms(nb), [0])
@@ -546,6 +555,7 @@ def rule_tag_plumbing(fm, rep, rid='R2'):
         rep.ob(rid, '%s/default-tags-passed-in-order' % b_.name, okv, b_.where(), 'the builder receives a forward, complete view of the client tag list' if okv else
                'default tags are not handed over as a plain forward view of the configured list: %s' % why)
     # (b) the receiving builder method applies every item once, in order, by its key
+    pushes_ok = set()
     for cp in sorted(fm._tag_callees):
         wb = symb._body(cp)
         if wb is None:
@@ -608,6 +618,13 @@ def rule_tag_plumbing(fm, rep, rid='R2'):
                 ok = any(norm(dt)[0] == 'discr' and ('variant', 'Some') in labels for dt, labels, _ in g1) and \
                     any(norm(dt)[0] == 'discr' and ('variant', names(cad).v_success) in labels for dt, labels, _ in g1)
                 why = 'key:value application is not selected by the key being Some (on the Success state)'
+        if not ok:
+            ok2, why2 = _tags_applied_by_pushes(cad, fm, wb)
+            if ok2:
+                ok = True
+                pushes_ok.add(cp)
+            elif why2:
+                why = why + ' ; ' + why2
         rep.ob(rid, 'default-tags-applied-each-once-in-order', ok, wb.where(), 'for item in tags (forward): Some(k) -> key:value tag, None -> bare tag' if ok else
                '%s does not apply every default tag once, in order, by its key: %s' % (cp.rsplit('::', 1)[-1], why))
     # (c) formatter methods append
@@ -630,7 +647,88 @@ def rule_tag_plumbing(fm, rep, rid='R2'):
             else:
                 ok = k[0] == 'adt' and k[2] == 'None' and peel(v) == ('param', 2)
         rep.ob(rid, 'formatter/%s-appends' % x.name, ok, x.where(), 'tags.push(..): call order is line order')
-    rep.floor(rid, 'formatter tag appenders', n_app, 2)
+    if not (pushes_ok and pushes_ok == set(fm._tag_callees)):
+        # (when the default tags are applied by direct pushes - checked above on the fully inlined body - the two
+        # per-kind appender methods need not exist)
+        rep.floor(rid, 'formatter tag appenders', n_app, 2)
+
+
+def _tags_applied_by_pushes(cad, fm, wb):
+    """Alternative shape for "every default tag applied once, in order, by its key": with everything inlined, one
+    forward loop over the argument, and on every path through an iteration exactly one `tags.push((K, V))` where V is
+    the item's value and K the item's key (the Option itself, or Some(k) / None selected by the item's key)."""
+    from .fmtout import iter_source
+    ib = inl(cad, wb)
+    T = Terms(ib)
+    nx = [bi for bi, t in ib.calls() if callee_is(t, 'as core::iter::traits::iterator::Iterator>::next') and not ib.blocks[bi]['cleanup'] and not ib.blocks[bi].get('dead')]
+    if len(nx) != 1:
+        return False, 'push form: %d iteration sites' % len(nx)
+    nct = norm(T.call_term(nx[0]))
+    src, enum = iter_source(nct[2][0])
+    if strip_views(src) != ('param', 2) or enum:
+        return False, 'push form: the loop iterates %s' % fmt(src)[:60]
+    tagsf = fm.roles.get('tags')
+    pushes, other = [], []
+    for bi, t in ib.calls():
+        if ib.blocks[bi]['cleanup'] or ib.blocks[bi].get('dead'):
+            continue
+        k = strip_generics(t.get('callee_full', ''))
+        if not k.startswith('alloc::vec::Vec::'):
+            continue
+        ct = norm(T.call_term(bi))
+        if not (ct[2] and any(y[0] == 'field' and y[2] == tagsf for y in walk(ct[2][0]))):
+            continue
+        if k == 'alloc::vec::Vec::push':
+            pushes.append((bi, ct))
+        elif k.rsplit('::', 1)[-1] not in ('len', 'is_empty', 'iter', 'capacity', 'as_slice', 'reserve'):
+            other.append(k)
+    if other or not pushes:
+        return False, 'push form: tag list touched by %s, %d pushes' % (other, len(pushes))
+    item = field_of(('payload', nct, 'Some'), '0', 0)
+
+    def comp_of(x, idx):
+        y = deep_peel(strip_views(x))
+        return y == ('field', deep_peel(item), idx) or y == ('field', deep_peel(item), str(idx))
+    for bi, ct in pushes:
+        tv = ct[2][1]
+        if tv[0] != 'tuple' or len(tv[1]) != 2:
+            return False, 'push form: pushed value is %s' % fmt(tv)[:60]
+        k_, v_ = tv[1]
+        if not comp_of(v_, 1):
+            return False, 'push form: tag value is %s, not the item value' % fmt(v_)[:60]
+        if comp_of(k_, 0):
+            continue
+        gs = guards_of(T, bi) or []
+        if k_[0] == 'adt' and k_[2] == 'Some':
+            inner = deep_peel(strip_views(dict(k_[3])['0']))
+            oki = inner[0] == 'field' and inner[1][0] == 'payload' and inner[1][2] == 'Some' and comp_of(inner[1][1], 0)
+            okg = any(norm(dt)[0] == 'discr' and comp_of(norm(dt)[1], 0) and ('variant', 'Some') in labels for dt, labels, _ in gs)
+            if not (oki and okg):
+                return False, 'push form: key %s is not the item key' % fmt(k_)[:60]
+        elif k_[0] == 'adt' and k_[2] == 'None':
+            okg = any(norm(dt)[0] == 'discr' and comp_of(norm(dt)[1], 0) and ('variant', 'None') in labels for dt, labels, _ in gs)
+            if not okg:
+                return False, 'push form: a bare tag is pushed although the item has a key'
+        else:
+            return False, 'push form: key is %s' % fmt(k_)[:60]
+    oe = outcome_edges(T, nx[0])
+    some_t = [s for (bb, s), v in oe.items() if v == 'ok']
+    pb = set(bi for bi, _ in pushes)
+    if not some_t:
+        return False, 'push form: result of next() not examined'
+    cnt = count_events(ib, lambda q: q in pb, starts=some_t, stop=lambda q: q == nx[0]) if 'stop' in count_events.__code__.co_varnames else None
+    if cnt is None:
+        # count pushes on every path from the Some edge back to next() / to an exit
+        ok_paths = all(C.must_pass(ib, s, set(C.exits(ib, False)) | {nx[0]}, pb) for s in some_t)
+        twice = any(any(x in reach(ib, ib.succs(a, False), stop=lambda q: q == nx[0]) for x in pb) for a in pb)
+        if not ok_paths or twice:
+            return False, 'push form: an item can be skipped or applied twice'
+    elif cnt != {1}:
+        return False, 'push form: an item is applied %s times' % sorted(cnt)
+    gsucc = guards_of(T, pushes[0][0]) or []
+    if not any(norm(dt)[0] == 'discr' and ('variant', names(cad).v_success) in labels for dt, labels, _ in gsucc):
+        return False, 'push form: not on the Success state'
+    return True, ''
 
 
 _FTM = {}
@@ -676,7 +774,7 @@ def _forward_view_of_tags(cad, x):
             nm = y[1]
             if nm.endswith('Iterator>::map') and len(y[2]) == 2:
                 clo = y[2][1]
-                if clo[0] != 'closure':
+                if clo[0] not in ('closure', 'fn'):
                     return False, 'map over a non-literal function'
                 r = symb.apply(clo, (('item',),))
                 okc = r[0] == 'tuple' and len(r[1]) == 2
@@ -832,75 +930,108 @@ def _merge_lits(atoms):
     return out
 
 
-def rule_prefix(fm, rep, rid='R6'):
-    """The prefix stored by the builder is "" for an empty argument, otherwise the argument without trailing dots plus
-    one dot; analysed on StatsdClientBuilder::new with private helpers inlined (wherever the normalisation lives)."""
-    cad = fm.cad
-    nb = one(rep, rid, 'StatsdClientBuilder::new', [names(cad).scb_new] if names(cad).scb_new is not None else [])
-    if nb is None:
-        return
-    rep.analysed(nb)
-    b = inl(cad, nb)
-    for p_, _, _ in getattr(b, 'inlined', None) or []:
-        if p_ in cad.bodies:
-            rep.analysed(cad.bodies[p_])
+def _prefix_stage(cad, body0, out_path, is_input):
+    """How a constructor computes the prefix it stores from its input: 'copy' (a plain owned copy / move of the input),
+    'normalised' ("" for empty input, else input without trailing dots + "."), or (None, why)."""
+    b = inl(cad, body0)
     T = Terms(b)
-    ppath = client_field_path(cad, 'prefix', SCB)
-    ok = False
-    msg = 'the prefix normalisation has an unexpected shape'
+
+    def plain_copy(v):
+        v = norm(v)
+        for _ in range(6):
+            if is_input(v):
+                return True
+            if v[0] == 'call' and isinstance(v[1], str) and len(v[2]) == 1 and (
+                    v[1].endswith('as alloc::string::ToString>::to_string') or v[1].endswith('as core::convert::From>::from') or
+                    v[1].endswith('as core::convert::Into>::into') or v[1].endswith('ToOwned>::to_owned') or v[1].endswith('::to_owned') or
+                    v[1].endswith('as core::clone::Clone>::clone') or v[1].endswith('alloc::string::String::from') or v[1].endswith('::to_string')):
+                v = norm(v[2][0])
+                continue
+            if v[0] in ('ref', 'deref', 'conv', 'unsize', 'autoderef'):
+                v = norm(v[1])
+                continue
+            return False
+        return False
+    rts = ret_terms(T, [0])
+    vals = [get_path(r, out_path) for r in rts]
+    if vals and all(plain_copy(v) for v in vals):
+        return 'copy', '', b
     sw = []
     for bi, blk in enumerate(b.blocks):
         if blk['term']['k'] == 'switch' and not blk['cleanup'] and not blk.get('dead'):
             d = norm(T.switch_facts(bi)[0])
-            if term_callee_is(d, 'core::str::is_empty') and peel(d[2][0]) == ('param', 1):
+            if term_callee_is(d, 'core::str::is_empty', 'alloc::string::String::is_empty') and is_input(d[2][0]):
                 sw.append(bi)
-    if ppath is None:
-        rep.anchor_lost(rid, 'prefix field of the builder')
-        return
-    if len(sw) == 1:
-        dt, edges = T.switch_facts(sw[0])
-        te = [s for s, labs in edges.items() if ('bool', True) in labs]
-        fe = [s for s, labs in edges.items() if ('bool', False) in labs]
+    if len(sw) != 1:
+        return None, 'the prefix normalisation has an unexpected shape', b
+    dt, edges = T.switch_facts(sw[0])
+    te = [s for s, labs in edges.items() if ('bool', True) in labs]
+    fe = [s for s, labs in edges.items() if ('bool', False) in labs]
 
-        def prefix_alts(starts, truth):
-            Tr = T.restrict(starts)
-            outs = []
-            for r in ret_terms(Tr, starts):
-                alts = string_alternatives(Tr, get_path(r, ppath))
-                if alts is None:
-                    return None
-                outs.extend(_merge_lits(a) for a in alts)
-            return outs
-        a1 = prefix_alts(te, True)
-        a2 = prefix_alts(fe, False)
-        ok1 = a1 is not None and bool(a1) and all(a == [] for a in a1)
-        ok2 = False
-        if a2 is None or not a2:
-            msg = 'cannot follow how a non-empty prefix is rendered'
-        else:
-            ok2 = True
-            for atoms in a2:
-                good = len(atoms) == 2 and atoms[0][0] == 'val' and atoms[1] == ('lit', '.')
-                if good:
-                    a = peel(atoms[0][1])
-                    if term_callee_is(a, 'core::str::trim_end_matches') and peel(a[2][0]) == ('param', 1):
-                        pat = peel(a[2][1])
-                        if not ((pat[0] == 'const' and pat[1] == 'char' and pat[2] == '46') or pat == ('str', '.')):
-                            good = False
-                            msg = 'prefix trimmed with pattern %s' % fmt(pat)
-                    else:
-                        good = False
-                        msg = 'non-empty prefix is rendered from %s: every trailing dot must be removed (trim_end_matches(\'.\')) before one dot is appended' % fmt(a)[:100]
-                elif ok2:
-                    msg = 'prefix template is %s' % [(x[0], x[1] if x[0] == 'lit' else fmt(x[1])[:60]) for x in atoms]
-                ok2 = ok2 and good
-        if not ok1 and ok2:
-            msg = 'an empty prefix is not kept empty'
-        ok = ok1 and ok2
-        if ok:
-            msg = 'empty -> "", otherwise trim_end_matches(\'.\') + "."'
-    rep.ob(rid, 'prefix-normalisation', ok, nb.where(), msg)
-    rep.ob(rid, 'prefix-normalised-once', ok, nb.where(), 'builder.prefix = normalised(prefix argument)' if ok else 'the builder does not store the normalised prefix argument')
+    def prefix_alts(starts):
+        Tr = T.restrict(starts)
+        outs = []
+        for r in ret_terms(Tr, starts):
+            alts = string_alternatives(Tr, get_path(r, out_path))
+            if alts is None:
+                return None
+            outs.extend(_merge_lits(a) for a in alts)
+        return outs
+    a1, a2 = prefix_alts(te), prefix_alts(fe)
+    if not (a1 is not None and bool(a1) and all(a == [] for a in a1)):
+        return None, 'an empty prefix is not kept empty', b
+    if a2 is None or not a2:
+        return None, 'cannot follow how a non-empty prefix is rendered', b
+    for atoms in a2:
+        if not (len(atoms) == 2 and atoms[0][0] == 'val' and atoms[1] == ('lit', '.')):
+            return None, 'prefix template is %s' % [(x[0], x[1] if x[0] == 'lit' else fmt(x[1])[:60]) for x in atoms], b
+        a = peel(atoms[0][1])
+        if not (term_callee_is(a, 'core::str::trim_end_matches') and is_input(a[2][0])):
+            return None, 'non-empty prefix is rendered from %s: every trailing dot must be removed (trim_end_matches(\'.\')) before one dot is appended' % fmt(a)[:100], b
+        pat = peel(a[2][1])
+        if not ((pat[0] == 'const' and pat[1] == 'char' and pat[2] == '46') or pat == ('str', '.')):
+            return None, 'prefix trimmed with pattern %s' % fmt(pat), b
+    return 'normalised', '', b
+
+
+def rule_prefix(fm, rep, rid='R6'):
+    """The prefix the client formats with is "" for an empty argument, otherwise the argument without trailing dots plus
+    one dot.  It travels argument -> builder constructor -> builder field -> client constructor -> client field; exactly
+    one of the two constructors normalises (wherever the code lives, helpers inlined), the other one copies."""
+    cad = fm.cad
+    nb = one(rep, rid, 'StatsdClientBuilder::new', [names(cad).scb_new] if names(cad).scb_new is not None else [])
+    fb = one(rep, rid, 'StatsdClient::from_builder', [names(cad).sc_from_builder] if names(cad).sc_from_builder is not None else [])
+    bpath, cpath = client_field_path(cad, 'prefix', SCB), client_field_path(cad, 'prefix')
+    if nb is None or fb is None:
+        return
+    if bpath is None or cpath is None:
+        rep.anchor_lost(rid, 'prefix field of the builder / the client')
+        return
+    rep.analysed(nb)
+    rep.analysed(fb)
+
+    def in_arg(v):
+        return peel(norm(v)) == ('param', 1) or strip_views(norm(v)) == ('param', 1)
+
+    def in_builder_field(v):
+        return field_path_of(strip_views(norm(v))) == bpath or field_path_of(norm(v)) == bpath
+    k1, why1, b1 = _prefix_stage(cad, nb, bpath, in_arg)
+    k2, why2, b2 = _prefix_stage(cad, fb, cpath, in_builder_field)
+    for bb_ in (b1, b2):
+        for p_, _, _ in getattr(bb_, 'inlined', None) or []:
+            if p_ in cad.bodies:
+                rep.analysed(cad.bodies[p_])
+    ok = (k1, k2) in (('normalised', 'copy'), ('copy', 'normalised'))
+    if ok:
+        msg = 'empty -> "", otherwise trim_end_matches(\'.\') + "." (in %s), copied unchanged by the other constructor' % ('the builder constructor' if k1 == 'normalised' else 'the client constructor')
+    elif (k1, k2) == ('copy', 'copy'):
+        msg = 'the prefix is never normalised: builder and client both copy it'
+    elif (k1, k2) == ('normalised', 'normalised'):
+        msg = 'the prefix is normalised twice'
+    else:
+        msg = why1 or why2 or 'the prefix normalisation has an unexpected shape'
+    rep.ob(rid, 'prefix-normalisation', ok, (nb if k1 != 'copy' else fb).where(), msg)
+    rep.ob(rid, 'prefix-normalised-once', ok, nb.where(), 'client.prefix = normalised(prefix argument), exactly once on the way' if ok else 'the client does not store the once-normalised prefix argument')
 
 
 # ------------------------------------------------------------------ C01-R7 at least one value
